@@ -7,6 +7,8 @@ VERIF = os.path.dirname(HERE)
 TRUST = ("Lean 4.33 kernel; axioms limited to propext/Classical.choice/Quot.sound (audited by #print axioms each run); "
          "hand-written model tied to /repo by the differential correspondence check of each run; ")
 
+EQUIV_PROPS = {"C01", "C03", "C04", "C05", "C06", "C07", "C08", "C09", "C13"}
+
 CLAIMED = {
     "C20": dict(
         text="Lean theorems over the dispatcher model for every table / operation history (unique binding per class, "
@@ -302,7 +304,10 @@ def main():
             "replay_cmd_template": "./check %s --replay {path}" % pid,
             "engine": "lean-proof+correspondence",
             "level_claimed": {"category": "proof", "text": c["text"], "design_ref": c["design"]},
-            "level_note": c["note"],
+            "level_note": c["note"] + (" Secondary tie: the integer kernels this property rests on are regenerated from the source of the "
+                                       "tree under test by harness/translate.py on every run and proved equal to the model definitions "
+                                       "(Props/Equiv*.lean); trusted there: the translator's statement/expression scheme, its table of variable "
+                                       "types and its restatement of struct.pack." if pid in EQUIV_PROPS else ""),
             "technique": c["technique"],
         })
     na = [{"property_id": p, "reason": CLAIMED_NA.get(p, REASON_PENDING)} for p in props if p not in CLAIMED]
